@@ -23,7 +23,10 @@ Definition outside (p : rpc) : bool :=
 
 (* Run is past its select on the failure branch *)
 Definition late (p : tpc) : bool :=
-  match p with TTearLock | TStopBegin | TStopWait | TRet _ | TOut _ | TDone _ => true | _ => false end.
+  match p with
+  | TTearLock | TStopBegin | TStopWait | TStopDrain | TRet _ | TOut _ | TDone _ => true
+  | _ => false
+  end.
 
 Definition result_of (p : tpc) : option oerr :=
   match p with TRet r | TOut r | TDone r => Some r | _ => None end.
@@ -129,12 +132,13 @@ Ltac goal_cases :=
          | |- context [match cfg ?s with _ => _ end] => let E := fresh "Ec" in destruct (cfg s) eqn:E
          | |- context [match fsm ?s with _ => _ end] => let E := fresh "Ef" in destruct (fsm s) eqn:E
          | |- context [if fix_c09 ?P then _ else _] => let E := fresh "Efx" in destruct (fix_c09 P) eqn:E
+         | |- context [if fix_stale ?P then _ else _] => let E := fresh "Efs" in destruct (fix_stale P) eqn:E
          end; cbn.
 
 Ltac split_all := repeat match goal with |- _ /\ _ => split end.
 
 Ltac norm_hyps :=
-  unfold at_boot_lock, at_boot_launch, at_stop_begin, at_stop_wait in *;
+  unfold at_boot_lock, at_boot_launch, at_stop_begin, at_stop_wait, at_stop_drain in *;
   repeat match goal with
          | H : _ && _ = true |- _ => apply andb_true_iff in H as [? ?]
          | H : match ?x with _ => _ end = true |- _ =>
